@@ -57,13 +57,14 @@ const (
 	c27ExtraForeign   = "extra_foreign_partition"
 	c27ExtraSibling   = "extra_sibling_partition"
 	c27Dup            = "dup_partition"
+	c27DupReplace     = "dup_replaces_partition" // same number of entries: one partition answered twice, another not at all
 	c27AcceptClose    = "close_on_accept" // pseudo mode (accept level)
 )
 
-var c27ReqModes = []string{c27Normal, c27ReplyThenClose, c27CloseAfterRead, c27TruncFrame, c27ShortBody, c27Garbage, c27Omit, c27ExtraForeign, c27ExtraSibling, c27Dup}
+var c27ReqModes = []string{c27Normal, c27ReplyThenClose, c27CloseAfterRead, c27TruncFrame, c27ShortBody, c27Garbage, c27Omit, c27ExtraForeign, c27ExtraSibling, c27Dup, c27DupReplace}
 
 func c27IsShapeMode(m string) bool {
-	return m == c27Omit || m == c27ExtraForeign || m == c27ExtraSibling || m == c27Dup
+	return m == c27Omit || m == c27ExtraForeign || m == c27ExtraSibling || m == c27Dup || m == c27DupReplace
 }
 
 type c27Topic struct {
@@ -611,6 +612,18 @@ func (b *c27Broker) onProduce(ev *c27Event, req *kmsg.ProduceRequest, mode strin
 		if len(resp.Topics) > 0 && len(resp.Topics[0].Partitions) > 0 {
 			resp.Topics[0].Partitions = append(resp.Topics[0].Partitions, resp.Topics[0].Partitions[0])
 		}
+	case c27DupReplace:
+		done := false
+		for ti := range resp.Topics {
+			if ps := resp.Topics[ti].Partitions; len(ps) >= 2 {
+				ps[len(ps)-1] = ps[0]
+				done = true
+				break
+			}
+		}
+		if !done && len(resp.Topics) > 0 && len(resp.Topics[0].Partitions) > 0 {
+			resp.Topics[0].Partitions = append(resp.Topics[0].Partitions, resp.Topics[0].Partitions[0])
+		}
 	case c27ExtraForeign, c27ExtraSibling:
 		topic, part := "", int32(77)
 		if len(req.Topics) > 0 {
@@ -686,6 +699,18 @@ func (b *c27Broker) onFetch(ev *c27Event, req *kmsg.FetchRequest, mode string) k
 		}
 	case c27Dup:
 		if len(resp.Topics) > 0 && len(resp.Topics[0].Partitions) > 0 {
+			resp.Topics[0].Partitions = append(resp.Topics[0].Partitions, resp.Topics[0].Partitions[0])
+		}
+	case c27DupReplace:
+		done := false
+		for ti := range resp.Topics {
+			if ps := resp.Topics[ti].Partitions; len(ps) >= 2 {
+				ps[len(ps)-1] = ps[0]
+				done = true
+				break
+			}
+		}
+		if !done && len(resp.Topics) > 0 && len(resp.Topics[0].Partitions) > 0 {
 			resp.Topics[0].Partitions = append(resp.Topics[0].Partitions, resp.Topics[0].Partitions[0])
 		}
 	case c27ExtraForeign, c27ExtraSibling:
